@@ -251,6 +251,59 @@ fn stream_fronts(r: &mut Run) {
         r.verdict(idx, "woz2/from_bytes", &o, &desc);
         r.case(&b, true);
     }
+    // F2b WOZ1: (a) the two fields of a TRK entry that bound each other, on a real image; (b) synthetic files of chunks
+    {
+        let base = guarded(|| { let mut w = a2kit::img::woz1::Woz1::create(254, names::A2_DOS33_KIND); w.to_bytes() }).unwrap_or_default();
+        let vals: [u64; 14] = [0, 1, 8, 6645, 6646, 6647, 6656, 8000, 8191, 53168 / 8, 53168, 53169, 64000, 0xFFFF];
+        let mut pairs: Vec<(usize, u64, u64)> = Vec::new();
+        for t in [0usize, 17] { for bu in vals { for bc in [0u64, 1, 9, 53160, 53168, 53169, 53176, 53248, 64000, 65528, 0xFFFF] { pairs.push((t, bu, bc)); } } }
+        for (t, bu, bc) in pairs {
+            let Some(idx) = r.claim() else { continue };
+            if base.len() < 256 + 6656 * 35 { continue; }
+            let mut b = base.clone();
+            let e = 256 + 6656 * t;
+            b[e + 6646] = bu as u8; b[e + 6647] = (bu >> 8) as u8; b[e + 6648] = bc as u8; b[e + 6649] = (bc >> 8) as u8;
+            let desc = format!("woz1 track {} bytes_used={} bit_count={}", t, bu, bc);
+            r.mark(idx, "woz1/track", &desc);
+            let o = watched(20000, move || {
+                let mut w = a2kit::img::woz1::Woz1::from_bytes(&b).map_err(|_| ())?;
+                let _ = w.get_track_solution(t);
+                let _ = w.read_sector(t, 0, 0);
+                let _ = w.get_track_nibbles(t, 0);
+                Ok(String::new())
+            });
+            r.q(&format!("c12 woz1trk {} {}", bu, bc), match &o { Outc::Panic(_) => "panic", Outc::Hang => "hang", _ => "safe" });
+            r.verdict(idx, "woz1/track", &o, &desc);
+            r.case(desc.as_bytes(), true);
+        }
+        let n = r.ctx.n(60, 3000);
+        let mut files: Vec<Vec<u8>> = vec![woz1_synth(&[(b"INFO", 60, 1), (b"TMAP", 160, 0), (b"TRKS", 6656, 0)], 6646, 53168, 0), woz1_synth(&[], 0, 0, 0)];
+        for k in 0..n {
+            let mut g = rng.fork(0x3B1 + k as u64);
+            let mut chunks: Vec<(&[u8; 4], usize, u8)> = Vec::new();
+            for _ in 0..g.range(0, 4) {
+                let id: &[u8; 4] = *g.pick(&[b"INFO", b"TMAP", b"TRKS", b"META", b"JUNK", b"INFO", b"TMAP", b"TRKS"]);
+                let size = match id { b"INFO" => *g.pick(&[60usize, 60, 60, 59, 0, 61]), b"TMAP" => *g.pick(&[160usize, 160, 160, 159, 0, 200]),
+                    b"TRKS" => *g.pick(&[6656usize, 6656, 13312, 6655, 6657, 0, 8]), _ => *g.pick(&[0usize, 1, 8, 40]) };
+                chunks.push((id, size, *g.pick(&[1u8, 1, 1, 2, 0, 0xFF])));
+            }
+            let bu = *g.pick(&[6646u64, 6647, 8000, 0xFFFF, 0]); let bc = *g.pick(&[53168u64, 53169, 64000, 0xFFFF, 0, 8]);
+            let mut b = woz1_synth(&chunks, bu, bc, g.below(12));
+            if g.chance(15) { let n = g.below(b.len() + 1); b.truncate(n); }
+            if g.chance(8) && b.len() > 3 { b[3] = *g.pick(&[0x32u8, 0x33, 0]); }
+            files.push(b);
+        }
+        for b in files {
+            let Some(idx) = r.claim() else { continue };
+            let desc = cliphex(&b, 120);
+            r.mark(idx, "woz1/from_bytes", &desc);
+            let b2 = b.clone();
+            let o = watched(20000, move || a2kit::img::woz1::Woz1::from_bytes(&b2).map(|_| String::new()).map_err(|_| ()));
+            r.q(&format!("c12 woz1 {}", hx(&b)), o.class());
+            r.verdict(idx, "woz1/from_bytes", &o, &desc);
+            r.case(&b, true);
+        }
+    }
     // F3 IMD container: synthetic files (header, comment, 0..3 track records with small sectors), then mutated
     let n = r.ctx.n(500, 20000);
     let mut imds: Vec<Vec<u8>> = vec![imd_synth(&mut Rng::new(1), 0), imd_synth(&mut Rng::new(2), 1)];
@@ -418,6 +471,27 @@ fn imd_synth(g: &mut Rng, flavour: usize) -> Vec<u8> {
             match code { 1 | 3 | 5 | 7 => { let f = g.byte(); b.extend(std::iter::repeat(f).take(ssz)); } 2 | 4 | 6 | 8 => b.push(g.byte()), _ => {} }
         }
     }
+    b
+}
+
+
+/// a WOZ1 file from (chunk id, declared size, flavour) + `tail` trailing bytes; INFO: version 1, disk type = flavour;
+/// TMAP all 0xFF except entry 0 (0xFF flavour: entry 0 = 200); every TRKS entry carries `bytes_used`, `bit_count`
+fn woz1_synth(chunks: &[(&[u8; 4], usize, u8)], bytes_used: u64, bit_count: u64, tail: usize) -> Vec<u8> {
+    let mut b: Vec<u8> = vec![0x57, 0x4f, 0x5a, 0x31, 0xff, 0x0a, 0x0d, 0x0a, 0, 0, 0, 0];
+    for (id, size, fl) in chunks {
+        b.extend_from_slice(&id[..]);
+        b.extend_from_slice(&(*size as u32).to_le_bytes());
+        let mut body = vec![0u8; *size];
+        match &id[..] {
+            b"INFO" => { if body.len() > 1 { body[0] = 1; body[1] = *fl; } }
+            b"TMAP" => { for x in body.iter_mut() { *x = 0xff; } if !body.is_empty() { body[0] = if *fl == 0xFF { 200 } else { 0 }; } }
+            b"TRKS" => { let mut e = 0; while e + 6656 <= body.len() { body[e + 6646] = bytes_used as u8; body[e + 6647] = (bytes_used >> 8) as u8; body[e + 6648] = bit_count as u8; body[e + 6649] = (bit_count >> 8) as u8; e += 6656; } }
+            _ => {}
+        }
+        b.extend(body);
+    }
+    b.extend(std::iter::repeat(0u8).take(tail));
     b
 }
 
@@ -901,6 +975,8 @@ enum Mutn {
     BlkMany(BlockRef, Vec<(usize, u8)>),
     /// FAT entry `n` := value, in every copy of the FAT (the mount repairs the first FAT from the backups)
     FatEnt(usize, u32),
+    /// several little-endian fields of the file at once: (offset, width, value) — fields that only matter in combination
+    PokeMulti(Vec<(usize, usize, u64)>),
 }
 
 /// what the boot sector of a FAT seed says: (bits per entry, usable clusters, clusters in the data region,
@@ -996,6 +1072,7 @@ fn apply(seed: &Seed, m: &Mutn) -> Option<Vec<u8>> {
     match m {
         Mutn::Poke(o, v) => { let mut b = seed.bytes.clone(); if *o < b.len() { b[*o] = *v; Some(b) } else { None } }
         Mutn::PokeLE(o, w, v) => { let mut b = seed.bytes.clone(); if o + w <= b.len() { for i in 0..*w { b[o + i] = (v >> (8 * i)) as u8; } Some(b) } else { None } }
+        Mutn::PokeMulti(ps) => { let mut b = seed.bytes.clone(); for (o, w, v) in ps { if o + w > b.len() { return None; } for i in 0..*w { b[o + i] = (v >> (8 * i)) as u8; } } Some(b) }
         Mutn::Truncate(n) => { if *n <= seed.bytes.len() { Some(seed.bytes[..*n].to_vec()) } else { None } }
         Mutn::Extend(n, v) => { let mut b = seed.bytes.clone(); b.extend(std::iter::repeat(*v).take(*n)); Some(b) }
         Mutn::Blk(rf, off, v) => {
@@ -1151,6 +1228,91 @@ fn targeted(seed: &Seed, blocks: &[(BlockRef, Vec<u8>)], thorough: bool) -> Vec<
     m
 }
 
+
+/// Container header fields that are only dangerous **together** (a length and the count it is checked against, a start
+/// and a size, …): 2-3 related fields of one structure corrupted consistently, at boundary values.  Always run in full.
+fn related(seed: &Seed, thorough: bool) -> Vec<Mutn> {
+    let mut m: Vec<Mutn> = Vec::new();
+    let b = &seed.bytes;
+    let flen = b.len() as u64;
+    match seed.ext {
+        "woz" if b.len() > 300 && b[3] == b'1' => {
+            // WOZ1 TRK entry: 6646 bytes of bits, bytes_used u16, bit_count u16 (+ the TMAP entry that leads to it)
+            let tracks: Vec<usize> = if thorough { (0..35).collect() } else { vec![0, 1, 17, 18, 34] };
+            for t in tracks {
+                let e = 256 + 6656 * t;
+                if e + 6656 > b.len() { continue; }
+                for (bu, bc) in [(6647u64, 53169u64), (6647, 53176), (6656, 53248), (7000, 53176), (8000, 64000), (8191, 65528), (8192, 65535), (0xFFFF, 0xFFFF),
+                                 (0xFFFF, 53169), (6646, 53169), (6645, 53168), (1, 9), (1, 8), (0, 1), (0, 0), (6646, 0)] {
+                    m.push(Mutn::PokeMulti(vec![(e + 6646, 2, bu), (e + 6648, 2, bc)]));
+                }
+                // another quarter-track entry of the TMAP pointing at the corrupted TRK
+                if t + 1 < 35 { m.push(Mutn::PokeMulti(vec![(88 + 4 * (t + 1), 1, t as u64), (e + 6646, 2, 0xFFFF), (e + 6648, 2, 0xFFFF)])); }
+            }
+        }
+        "woz" if b.len() > 1600 && b[3] == b'2' => {
+            // WOZ2 TRK entry: starting_block u16, block_count u16, bit_count u32
+            let tracks: Vec<usize> = if thorough { (0..35).collect() } else { vec![0, 1, 17, 18, 34] };
+            let total_blocks = flen / 512;
+            for t in tracks {
+                let o = 256 + 8 * t;
+                let start = b[o] as u64 + 256 * b[o + 1] as u64; let cnt = b[o + 2] as u64 + 256 * b[o + 3] as u64;
+                if cnt == 0 { continue; }
+                for (st, ct, bc) in [(start, cnt + 1, (cnt + 1) * 4096), (start, cnt + 1, cnt * 4096 + 1), (start, 0xFFFF, 0xFFFF * 4096), (start, 0xFFFF, 0xFFFFFFFF),
+                                     (total_blocks - 1, cnt, cnt * 4096), (total_blocks, 1, 4096), (total_blocks - cnt, cnt, cnt * 4096), (total_blocks - cnt + 1, cnt, cnt * 4096),
+                                     (3, total_blocks - 3, (total_blocks - 3) * 4096), (3, total_blocks - 2, (total_blocks - 2) * 4096), (2, cnt, cnt * 4096), (0, cnt, cnt * 4096),
+                                     (start, 1, 4097), (start, 1, 4096), (start, 0, 1), (start, 0, 0), (0xFFFF, 0xFFFF, 0xFFFFFFFF), (start, cnt, cnt * 4096 + 1)] {
+                    m.push(Mutn::PokeMulti(vec![(o, 2, st), (o + 2, 2, ct), (o + 4, 4, bc)]));
+                }
+            }
+            // INFO: largest track (blocks) and the flux fields with the version
+            m.push(Mutn::PokeMulti(vec![(20, 1, 3), (66, 2, 3), (68, 2, 1)]));
+            m.push(Mutn::PokeMulti(vec![(20, 1, 3), (66, 2, total_blocks), (68, 2, 0xFFFF)]));
+        }
+        "2mg" if b.len() > 64 => {
+            let (doff, dlen) = (u32::from_le_bytes([b[0x18], b[0x19], b[0x1a], b[0x1b]]) as u64, u32::from_le_bytes([b[0x1c], b[0x1d], b[0x1e], b[0x1f]]) as u64);
+            let blocks = u32::from_le_bytes([b[0x14], b[0x15], b[0x16], b[0x17]]) as u64;
+            for (o, l) in [(doff, dlen + 1), (doff + 1, dlen), (doff + 1, dlen - 1), (doff - 1, dlen + 1), (flen - 1, 1), (flen, 0), (flen, 1), (0, flen), (0, 0), (64, 0xFFFFFFFF), (0xFFFFFFFF, 1), (0xFFFFFF00, 0x200), (dlen, doff)] {
+                m.push(Mutn::PokeMulti(vec![(0x18, 4, o), (0x1c, 4, l)]));
+            }
+            for (bl, l) in [(blocks + 1, dlen + 512), (blocks + 1, dlen), (blocks - 1, dlen - 512), (0, dlen), (0xFFFFFFFF, dlen), (blocks * 2, dlen * 2), (1, 512), (0x800000, 0)] {
+                m.push(Mutn::PokeMulti(vec![(0x14, 4, bl), (0x1c, 4, l)]));
+            }
+            // comment and creator chunks: offset + length
+            for base in [0x20usize, 0x28] {
+                for (o, l) in [(flen - 1, 1), (flen - 1, 2), (flen, 1), (doff, dlen), (doff + dlen, 0xFFFFFFFF), (0xFFFFFFFF, 0xFFFFFFFF), (1, flen), (64, 0), (0, 5)] {
+                    m.push(Mutn::PokeMulti(vec![(base, 4, o), (base + 4, 4, l)]));
+                }
+            }
+            // header length with the data offset; format with the block count
+            for (hl, o) in [(0u64, 0u64), (63, 63), (65, 65), (0xFFFF, 64), (64, 0xFFFF)] { m.push(Mutn::PokeMulti(vec![(8, 2, hl), (0x18, 4, o)])); }
+            for (fm, bl) in [(0u64, 0u64), (1, 0), (2, blocks), (2, 0), (3, blocks), (0, blocks * 2)] { m.push(Mutn::PokeMulti(vec![(0x0c, 4, fm), (0x14, 4, bl)])); }
+        }
+        "imd" => {
+            // track header: mode, cylinder, head (+ map flags), sector count, size code — count and size together, flags and count
+            let eoh = b.iter().position(|x| *x == 0x1a).unwrap_or(0);
+            let mut p = eoh + 1;
+            for t in 0..(if thorough { 12 } else { 4 }) {
+                if p + 5 > b.len() { break; }
+                let nsec = b[p + 3] as u64; let sz = b[p + 4] as u64; let ssz = 128usize << (b[p + 4].min(6));
+                for (n, z) in [(nsec + 1, sz), (nsec - 1, sz), (nsec, sz + 1), (nsec, sz.saturating_sub(1)), (nsec * 2, sz.saturating_sub(1)), (nsec / 2, sz + 1), (0, 6), (255, 6), (255, 0), (1, 0), (1, 6), (0, 0), (nsec, 7), (nsec, 255), (255, 255)] {
+                    m.push(Mutn::PokeMulti(vec![(p + 3, 1, n), (p + 4, 1, z)]));
+                }
+                for (h, n) in [(0x80u64, nsec), (0x40, nsec), (0xC0, nsec), (0x80, nsec / 2), (0xC0, nsec / 3), (0xC1, 255), (0x3F, nsec)] { m.push(Mutn::PokeMulti(vec![(p + 2, 1, h), (p + 3, 1, n)])); }
+                // first sector record type with the size code
+                let q = p + 5 + nsec as usize;
+                if q < b.len() { for (ty, z) in [(0u64, sz), (2, sz), (2, sz + 1), (1, sz + 1), (8, 0), (9, sz), (0, 7)] { m.push(Mutn::PokeMulti(vec![(q, 1, ty), (p + 4, 1, z)])); } }
+                let _ = t;
+                let mut q2 = q;
+                for _s in 0..nsec { if q2 >= b.len() { break; } q2 += match b[q2] { 1 | 3 | 5 | 7 => 1 + ssz, 2 | 4 | 6 | 8 => 2, _ => 1 }; }
+                p = q2;
+            }
+        }
+        _ => {}
+    }
+    m
+}
+
 /// offsets in the seed file that belong to container structures (headers, chunk headers, track headers)
 fn container_offsets(seed: &Seed) -> (Vec<usize>, Vec<usize>) {
     // returns (byte offsets to corrupt, structure boundaries for truncation)
@@ -1240,6 +1402,9 @@ fn stream_images(r: &mut Run) {
         let tg = targeted(seed, &blocks, thorough);
         r.count_n(&format!("img:{}:targeted", seed.name), tg.len() as u64);
         muts.extend(tg);
+        let rl = related(seed, thorough);
+        r.count_n(&format!("img:{}:related", seed.name), rl.len() as u64);
+        muts.extend(rl);
         r.count_n(&format!("img:{}:mutations-enumerated", seed.name), total as u64);
         // the untouched seed
         if let Some(idx) = r.claim() {
